@@ -123,6 +123,14 @@ func strategyCase(idx int64, r *rand.Rand) {
 // concurrentStrategySamples: many goroutines acquire at once (nobody releases, the limit is never reached): every
 // admission decision saw a different count, so the emitted in-flight samples must be exactly 1..K, each once.
 func concurrentStrategySamples(idx int64, r *rand.Rand) {
+	for round := 0; round < 12; round++ {
+		if !concurrentStrategySamplesRound(idx, r) {
+			return
+		}
+	}
+}
+
+func concurrentStrategySamplesRound(idx int64, r *rand.Rand) bool {
 	reg := inject.NewRecRegistry()
 	var s core.Strategy
 	kind := "simple"
@@ -175,9 +183,10 @@ func concurrentStrategySamples(idx int64, r *rand.Rand) {
 		}
 		rt.Violation("C20/"+kind+"/concurrent-admissions-did-not-each-report-their-own-count", idx, rt.J{"goroutines": nG, "acquires_each": per,
 			"samples": len(ev), "values_reported_twice": head(dup), "values_never_reported": head(missing)})
-		return
+		return false
 	}
 	rt.Distinct(fmt.Sprintf("concsamples|%s|%d|%d", kind, nG, per))
+	return true
 }
 
 func head(v []int) []int {
@@ -620,6 +629,7 @@ func queueGaugeCase(idx int64, r *rand.Rand) {
 	}
 	gl, ok1 := reg.GaugeByPrefix(core.MetricQueueLimit)
 	gs, ok2 := reg.GaugeByPrefix(core.MetricQueueSize)
+	rt.Count("queue_gauge_cases", 1)
 	rt.Count("gauge_reads", 2)
 	if !ok1 || !ok2 || int(gl) != want || gs != 0 {
 		rt.Violation("C20/queue/queue-gauges-differ-from-configuration", idx, rt.J{"configured_backlog": size, "queue_limit": gl, "queue_size": gs, "gauges": reg.GaugeKeys()})
@@ -1573,7 +1583,7 @@ func TestCheck(t *testing.T) {
 		switch m := idx % 24; {
 		case idx%48 == 29:
 			externalSetCase(idx, r)
-		case idx%48 == 41:
+		case idx%48 == 38:
 			windowedDelegateDrops(idx, r)
 		case idx%48 == 19:
 			gaugePollCase(idx, r)
